@@ -242,8 +242,12 @@ def status_atom_kind(cx: Cx, f: Formula) -> Optional[str]:
     if not isinstance(f, ACmp):
         return None
     b = f.base
+    raw = b
+    if isinstance(b, App) and b.fn == '@t':
+        b = b.args[0]
     if not (isinstance(b, Attr) and b.name == '_status'):
         return None
+    b = raw
     ms = cx.prog.cls(CORE + 'ModelStatus')
     mem = cx.prog.enum_members(ms)
     if 'RUNNING' not in mem or 'COMPLETE' not in mem:
